@@ -20,6 +20,10 @@ satisfying `Ty.wf`, any value `v` of the value universe.  `Ty.wf` is a decidable
 sanity predicate (see `Model/C15.lean`): the argument of `Type[..]` has no `Literal`
 on its union spine, the base of `bounded(..)` is a numeric annotation, Literal choices
 are scalars.  `wf_is_needed_*` show the code does raise outside it.
+
+Generations: `Ty.chain base gens` is `bounded(..)` of `bounded(..)` of … (and validated types
+over a base, `Ty.refined`) applied to `base`; `generations_iff` and its corollaries state that
+every generation's predicate counts, for any number of generations.
 -/
 set_option linter.unusedSectionVars false
 set_option linter.unusedSimpArgs false
@@ -293,6 +297,98 @@ theorem bounded_base_first (ge gt le lt : Option Int) (h : Int) (s : String) :
     checkType E (.bounded .float ge gt le lt) (.str s) = .ok false :=
   ⟨rfl, rfl⟩
 
+/-! ## Generations: bounded of bounded, validated over a base, bounded over validated -/
+
+/-- A validated type over a base (`validated(lambda x: check_type(x, base) and pred(x))`)
+accepts exactly the values conforming to the base that satisfy the predicate. -/
+theorem refined_iff {b : Ty} (hwf : b.wf = true) (p : Nat) (v : Val) :
+    checkType E (.refined b p) v = .ok true ↔ conforms E b v = true ∧ E.pred p v = true := by
+  rw [checkType_true_iff E (t := .refined b p) (by simpa [Ty.wf] using hwf) v]
+  simp [conforms]
+
+/-- **Every generation counts.** Any number of generations (`bounded(..)` of `bounded(..)` of …,
+validated types in between, in any order) over a base: the value is accepted exactly when it
+conforms to the base and satisfies the predicate of EVERY generation — no generation's bound
+is dropped, merged away or overridden by another one.  No bound on the number of generations. -/
+theorem generations_iff {base : Ty} {gens : List Gen} (hwf : (Ty.chain base gens).wf = true) (v : Val) :
+    checkType E (Ty.chain base gens) v = .ok true ↔
+      conforms E base v = true ∧ ∀ g ∈ gens, g.holds E v = true := by
+  rw [checkType_true_iff E hwf v, conforms_chain]
+  simp [List.all_eq_true]
+
+/-- …and such a chain over a well-formed numeric base is always inside the language
+(hence `check_type` never raises on it). -/
+theorem generations_wf {base : Ty} (hwf : base.wf = true) (hn : base.numeric = true) (gens : List Gen) :
+    (Ty.chain base gens).wf = true ∧ ∀ v e, checkType E (Ty.chain base gens) v ≠ .error e :=
+  ⟨wf_chain_of_numeric base hwf hn gens,
+   fun v e => checkType_never_raises E (wf_chain_of_numeric base hwf hn gens) v e⟩
+
+/-- For bounded generations the predicate is the four declared comparisons on the number. -/
+theorem bounded_generations_iff {base : Ty} (hwf : base.wf = true) (hn : base.numeric = true)
+    (bs : List (Option Int × Option Int × Option Int × Option Int)) (v : Val) :
+    checkType E (Ty.chain base (bs.map fun b => Gen.bnd b.1 b.2.1 b.2.2.1 b.2.2.2)) v = .ok true ↔
+      conforms E base v = true ∧ ∃ x, num v = some x ∧ ∀ b ∈ bs,
+        (∀ g, b.1 = some g → g ≤ x) ∧ (∀ g, b.2.1 = some g → g < x) ∧
+        (∀ g, b.2.2.1 = some g → x ≤ g) ∧ (∀ g, b.2.2.2 = some g → x < g) := by
+  rw [generations_iff E (wf_chain_of_numeric base hwf hn _) v]
+  constructor
+  · rintro ⟨hb, hg⟩
+    obtain ⟨x, hx⟩ := numeric_conforms E base hn v hb
+    refine ⟨hb, x, hx, fun b hbm => ?_⟩
+    exact (holds_bnd_iff E hx _ _ _ _).1 (hg _ (List.mem_map.2 ⟨b, hbm, rfl⟩))
+  · rintro ⟨hb, x, hx, hall⟩
+    refine ⟨hb, fun g hgm => ?_⟩
+    obtain ⟨b, hbm, rfl⟩ := List.mem_map.1 hgm
+    exact (holds_bnd_iff E hx _ _ _ _).2 (hall b hbm)
+
+/-- The verdict does not depend on the order in which the generations were applied. -/
+theorem generations_order_irrelevant {base : Ty} {gens gens' : List Gen} (hp : gens.Perm gens')
+    (hwf : (Ty.chain base gens).wf = true) (hwf' : (Ty.chain base gens').wf = true) (v : Val) :
+    checkType E (Ty.chain base gens) v = checkType E (Ty.chain base gens') v := by
+  rw [checkType_eq_conforms E hwf, checkType_eq_conforms E hwf', conforms_chain, conforms_chain]
+  congr 2
+  rw [Bool.eq_iff_iff, List.all_eq_true, List.all_eq_true]
+  constructor
+  · intro h g hm; exact h g (hp.mem_iff.2 hm)
+  · intro h g hm; exact h g (hp.mem_iff.1 hm)
+
+/-- Re-bounding on the SAME value: when two generations bound the same side at the same value
+`b`, one inclusive and one exclusive, the exclusive one decides — whichever generation declared
+it (for every integer `b`, incl. 0, and every int `n`). -/
+theorem rebound_same_value (b n : Int) :
+    checkType E (.bounded (.bounded (.cls .int) (some (2 * b)) none none none) none (some (2 * b)) none none) (.int n)
+      = .ok (decide (b < n)) ∧
+    checkType E (.bounded (.bounded (.cls .int) none (some (2 * b)) none none) (some (2 * b)) none none none) (.int n)
+      = .ok (decide (b < n)) ∧
+    checkType E (.bounded (.bounded (.cls .int) none none (some (2 * b)) none) none none none (some (2 * b))) (.int n)
+      = .ok (decide (n < b)) ∧
+    checkType E (.bounded (.bounded (.cls .int) none none none (some (2 * b))) none none (some (2 * b)) none) (.int n)
+      = .ok (decide (n < b)) := by
+  have hwf : ∀ a b c d a' b' c' d', (Ty.bounded (.bounded (.cls .int) a b c d) a' b' c' d').wf = true := by
+    intros; simp [Ty.wf, Ty.numeric]
+  refine ⟨?_, ?_, ?_, ?_⟩ <;>
+    · rw [checkType_eq_conforms E (hwf _ _ _ _ _ _ _ _)]
+      simp [conforms, isInstance, Val.typeOf, ClassId.sub, boundOk, num]
+      try omega
+
+/-- Re-bounding on different values: both generations' bounds hold, i.e. the tighter one decides,
+whether it is the inner or the outer one; a bound on the other side given by only one generation
+is kept. -/
+theorem rebound_tightest (a b c n : Int) :
+    checkType E (.bounded (.bounded (.cls .int) (some (2 * a)) none none none) (some (2 * b)) none none none) (.int n)
+      = .ok (decide (a ≤ n ∧ b ≤ n)) ∧
+    checkType E (.bounded (.bounded (.cls .int) none none (some (2 * a)) none) none none none (some (2 * b))) (.int n)
+      = .ok (decide (n ≤ a ∧ n < b)) ∧
+    checkType E (.bounded (.bounded (.cls .int) (some (2 * a)) none (some (2 * c)) none) none (some (2 * b)) none none) (.int n)
+      = .ok (decide (a ≤ n ∧ n ≤ c ∧ b < n)) := by
+  have hwf : ∀ a b c d a' b' c' d', (Ty.bounded (.bounded (.cls .int) a b c d) a' b' c' d').wf = true := by
+    intros; simp [Ty.wf, Ty.numeric]
+  refine ⟨?_, ?_, ?_⟩ <;>
+    · rw [checkType_eq_conforms E (hwf _ _ _ _ _ _ _ _)]
+      simp [conforms, isInstance, Val.typeOf, ClassId.sub, boundOk, num, Bool.and_assoc]
+      try omega
+
+
 /-! ## Non-vacuity: concrete deep annotations are well-formed, accepted and rejected -/
 
 /-- the lattice of the harness: A=0, B(A)=1, E=4 … (only what the examples use) -/
@@ -330,5 +426,16 @@ example : checkType exEnv (.set (.bounded .float none (some 0) (some 3) none)) (
 example : (Ty.cls .int).wf = true ∧ (Ty.cls .int).numeric = true := ⟨rfl, rfl⟩
 example : (Ty.union (.cons (.cls .int) (.cons (.literal (.cons (.str "a") .nil)) .nil))).wf = true := rfl
 example : (Tys.cons (.cls .int) (.cons (.validated 0) .nil)).wf = true := rfl
+-- generations: bounded(validated-over(bounded(float, ge=0, le=100), pred), gt=0, lt=100) is inside the language;
+-- 0 and 100 (on the exclusive outer bounds) are rejected, 50 accepted, "a" rejected without raising
+def exChain : Ty := Ty.chain .float [.bnd none (some 0) none (some 200), .pred 7, .bnd (some 0) none (some 200) none]
+def exEnvAll : Env := { userSub := fun _ _ => false, pred := fun _ _ => true }
+example : exChain.wf = true := rfl
+example : exChain = .bounded (.refined (.bounded .float (some 0) none (some 200) none) 7) none (some 0) none (some 200) := rfl
+example : checkType exEnvAll exChain (.int 0) = .ok false ∧ checkType exEnvAll exChain (.float 200) = .ok false ∧
+    checkType exEnvAll exChain (.int 50) = .ok true ∧ checkType exEnvAll exChain (.str "a") = .ok false := ⟨rfl, rfl, rfl, rfl⟩
+-- the hypotheses of `generations_order_irrelevant` are satisfiable with a non-trivial permutation
+example : [Gen.bnd (some 0) none none none, Gen.pred 1].Perm [Gen.pred 1, Gen.bnd (some 0) none none none] :=
+  List.Perm.swap _ _ _
 
 end SpecVerif.Props.C15
